@@ -31,7 +31,7 @@ func init() {
 			}
 			return ps
 		},
-		MinObserved: []string{"responses_checked", "goldap_responses_checked", "responses_from_a_request_with_several_responses"},
+		MinObserved: []string{"responses_checked", "goldap_responses_checked", "responses_from_a_request_with_several_responses", "responses_written_again_after_further_setters"},
 	})
 }
 
@@ -56,6 +56,17 @@ type c04Script struct {
 	EntryDN  []byte              `json:"entry_dn,omitempty"`
 	Setters  []c04Setter         `json:"setters,omitempty"`
 	OptOrder []int               `json:"opt_order,omitempty"`
+	// Early: the same response object is also written before setter k is applied (after k setters), for every k
+	// listed; each such write must show exactly what had been set by then, and must not freeze the object.
+	Early []int `json:"early_writes_before_setter,omitempty"`
+}
+
+// upTo is the script as it stood after k setters (what an early write must show).
+func (s *c04Script) upTo(k int) *c04Script {
+	t := *s
+	t.Setters = s.Setters[:k]
+	t.Early = nil
+	return &t
 }
 
 func (s *c04Script) sig() string {
@@ -198,6 +209,7 @@ type c04Built struct {
 	setCtls func(...gldap.Control)
 	addAttr func(string, []string)
 	next    int
+	wrote   map[int]bool
 }
 
 // step applies the next setter; false when none is left.
@@ -252,6 +264,17 @@ func runGroup(w *gldap.ResponseWriter, r *gldap.Request, group []*c04Script) err
 	for progress := true; progress; {
 		progress = false
 		for _, b := range built {
+			for _, k := range b.s.Early {
+				if k == b.next && !b.wrote[k] {
+					if b.wrote == nil {
+						b.wrote = map[int]bool{}
+					}
+					b.wrote[k] = true
+					if err := w.Write(b.resp); err != nil {
+						return err
+					}
+				}
+			}
 			more, err := b.step()
 			if err != nil {
 				return err
@@ -506,6 +529,16 @@ func c04Scripts(c *Ctx, useTLS bool) {
 						s2.MsgID = s.MsgID
 						group = append(group, s2)
 					}
+					// a quarter of the single-response requests write their response object more than once, with
+					// setters in between
+					if len(group) == 1 && r.Chance(25) {
+						for k := 0; k <= len(s.Setters); k++ {
+							if r.Bool() {
+								s.Early = append(s.Early, k)
+								list = append(list, s.upTo(k))
+							}
+						}
+					}
 					scripts[key] = group
 					list = append(list, group...)
 					if r.Bool() {
@@ -548,6 +581,9 @@ func c04Scripts(c *Ctx, useTLS bool) {
 					byID[m.ID] = q[1:]
 					if len(q) > 1 || len(scriptsOf(list, m.ID)) > 1 {
 						c.Count("responses_from_a_request_with_several_responses", 1)
+					}
+					if len(s.Early) > 0 {
+						c.Count("responses_written_again_after_further_setters", 1)
 					}
 					c.Count("responses_checked", 1)
 					c.Count("scripts/"+s.Ctor, 1)
